@@ -203,7 +203,7 @@ func NewModel(s *Sim) *Model {
 		}
 		for _, me := range s.methodEntries() {
 			for _, n := range me.names {
-				if count[n] > 1 {
+				if count[n] > 1 || me.unknownCmd {
 					e.ambiguous[n] = true
 					continue
 				}
@@ -1074,6 +1074,11 @@ func (m *Model) pickReturn(ev Event) {
 	extraMethod := c.Method >= MExtra0
 	report := func(prop, rule, facts, msg string) {
 		m.v(prop, rule, facts, msg, ev.Op)
+		if prop == "C03" && rule == "at-max-not-least-loaded" {
+			// also C02's own clause: a call that is placed is placed on a channel
+			// whose stream count is minimal, above the watermark as below it
+			m.v("C02", "not-least-loaded", "at-max|"+facts, msg, ev.Op)
+		}
 		if prop == "C01" && m.cfg.fallback && (rule == "bound-key-not-on-home" || rule == "bound-key-on-other-channel") {
 			// with fallback on this is also C08's "from the moment the home channel is
 			// READY again every call for the key goes back to the home channel"
